@@ -51,15 +51,20 @@ struct Case {
     warmup: usize,
     /// success replies spell some characters of their text as JSON escapes (`\/`, `\u00e9`, `\n`, `\"`)
     esc: bool,
+    /// an empty frame (a stray terminator, e.g. a keep-alive) follows the replies with these indices
+    stray: Vec<usize>,
+    /// a frame of a later exchange is waiting in the transport behind the burst (a further read would get it)
+    trailing: bool,
 }
 
 impl Case {
     fn replay(&self) -> Value {
-        json!({"monitor": "c11", "replies": self.replies.iter().map(|r| json!([r.0, r.1, r.2])).collect::<Vec<_>>(), "chunk_of": self.chunk_of, "pendings": self.pendings, "via_proxy_stream": self.via_proxy_stream, "seed": self.seed, "warmup": self.warmup, "esc": self.esc})
+        json!({"monitor": "c11", "replies": self.replies.iter().map(|r| json!([r.0, r.1, r.2])).collect::<Vec<_>>(), "chunk_of": self.chunk_of, "pendings": self.pendings, "via_proxy_stream": self.via_proxy_stream, "seed": self.seed, "warmup": self.warmup, "esc": self.esc, "stray": self.stray, "trailing": self.trailing})
     }
     fn hash(&self) -> u64 {
         let mut h = fnv(format!("{:?}{:?}", self.replies, self.chunk_of).as_bytes());
         h = fnv_mix(h, self.pendings as u64 * 2 + self.via_proxy_stream as u64);
+        h = fnv_mix(h, fnv(format!("{:?}{}", self.stray, self.trailing).as_bytes()));
         fnv_mix(h, self.seed ^ (self.warmup as u64) << 32 ^ (self.esc as u64) << 63)
     }
 }
@@ -162,12 +167,18 @@ fn execute(case: &Case) -> Result<(usize, bool), Damage> {
             for k in 0..case.replies.len() {
                 if case.chunk_of[k] == c {
                     b.extend(reply_bytes(case, k));
+                    if case.stray.contains(&k) {
+                        b.push(0);
+                    }
                 }
             }
             for _ in 0..case.pendings {
                 w.push(Rx::Pending);
             }
             w.push(Rx::Bytes(b));
+        }
+        if case.trailing {
+            w.push(Rx::Bytes(b"{\"parameters\":{\"tag\":999999,\"text\":\"a reply of a later exchange, long enough to cover the first items of the burst: 0123456789 0123456789 0123456789 0123456789 0123456789\"}}\0".to_vec()));
         }
     }
     let mut conn = Connection::new(VSocket(wire.clone()));
@@ -277,8 +288,13 @@ fn check(case: &Case, rep: &mut Report, group: &str) {
         }
         Ok(Err(d)) => {
             let _ = group;
+            let one_read = case.chunk_of.iter().all(|c| *c == 0);
             let sig = if group == "available" {
                 "C11/reply-stream-item-invalidated-although-the-whole-burst-was-available-before-the-first-item"
+            } else if one_read {
+                // every owed reply was in the buffer before the first item was handed out: whatever the stream
+                // did afterwards (including a read nobody needed) must not touch the items
+                "C11/reply-stream-item-changed-although-delivered-in-the-same-read"
             } else if d.read_while_holding {
                 "C11/reply-stream-item-invalidated-by-later-separate-read"
             } else {
@@ -301,6 +317,8 @@ pub fn run(cfg: &Cfg) -> Report {
             seed: r["seed"].as_u64().unwrap(),
             warmup: r["warmup"].as_u64().unwrap_or(0) as usize,
             esc: r["esc"].as_bool().unwrap_or(false),
+            stray: r["stray"].as_array().map(|a| a.iter().map(|x| x.as_u64().unwrap() as usize).collect()).unwrap_or_default(),
+            trailing: r["trailing"].as_bool().unwrap_or(false),
         };
         let g = if case.chunk_of.iter().all(|c| *c == 0) { if case.warmup == 0 { "available" } else { "same" } } else { "separate" };
         check(&case, &mut rep, g);
@@ -358,7 +376,16 @@ pub fn run(cfg: &Cfg) -> Report {
         let total: usize = replies.iter().map(|r| r.1 * if esc { 4 } else { 1 } + 70).sum();
         // same-read group: make sure the buffer can take the whole burst in one read
         let warmup = if group == "same" { total + 600 } else if group == "available" { 0 } else if rng.chance(1, 3) { rng.range(1, 3000) } else { 0 };
-        let mut case = Case { replies, chunk_of, pendings: if group == "available" { 0 } else { rng.below(2) }, via_proxy_stream, seed: cfg.seed ^ i, warmup, esc };
+        // every other case of the same-read group: stray terminators inside the burst and / or a frame of a later
+        // exchange waiting in the transport
+        let (stray, trailing) = if group == "same" && i % 2 == 1 {
+            ((0..n).filter(|_| rng.chance(1, 3)).collect::<Vec<_>>(), rng.chance(2, 3))
+        } else if group == "separate" && i % 5 == 1 {
+            ((0..n).filter(|_| rng.chance(1, 4)).collect::<Vec<_>>(), false)
+        } else {
+            (Vec::new(), false)
+        };
+        let mut case = Case { replies, chunk_of, pendings: if group == "available" { 0 } else { rng.below(2) }, via_proxy_stream, seed: cfg.seed ^ i, warmup, esc, stray, trailing };
         if group == "available" {
             // The whole burst is in the transport before the first item is requested, but the receive buffer
             // is fresh, so zlink takes it in buffer-sized pieces. zlink keeps reading until a piece ends on a
@@ -387,6 +414,12 @@ pub fn run(cfg: &Cfg) -> Report {
         }
         if case.esc {
             rep.count("cases_with_json_escapes_in_the_texts");
+        }
+        if !case.stray.is_empty() {
+            rep.count("cases_with_stray_terminators_inside_the_burst");
+        }
+        if case.trailing {
+            rep.count("cases_with_a_later_frame_waiting_in_the_transport");
         }
         check(&case, &mut rep, &group);
         if i < 3 {
